@@ -174,6 +174,9 @@ def generate(rng):
     if not case.get("validation_only") and rng.random() < 0.12:
         from .common import sample_constraints
         case["second"] = sample_constraints(rng, cfg["n"], max_pairs=2)      # the decorated model is decorated once more
+    if not case.get("validation_only") and rng.random() < 0.06:
+        import math
+        case["crash_decoration_at"] = int(math.exp(rng.uniform(0.0, math.log(400))))
     if not case.get("validation_only") and case["kind"] != "valid" and rng.random() < 0.6:
         # the rejected call is caught and the SAME estimator is used further (fitted, or decorated with a corrected set)
         case["use_after_reject"] = True
@@ -242,9 +245,33 @@ def execute(record):
         h = ModelHarness(world, model, cfg["family"], sched_plan=faults.get("sched", []))
         log.emit("OP", op="decorate", phase="begin", kind=case["kind"], n_ml=len(ml), n_cl=len(cl))
         accepted, exc = True, None
+        first_done = False
+        stacked_by_crash = False
+        if case.get("crash_decoration_at"):
+            # the decorating call itself is interrupted when its k-th source line is about to run (the estimator may be left
+            # half decorated: _batchify wrapped, _compute_grads not); the caller then simply decorates again
+            from ..seams import LineCrash
+            with quiet():
+                try:
+                    with LineCrash(case["crash_decoration_at"], log, res):
+                        out = add_mlcl_constraint(model, ml_arg, cl_arg, case["factor"])
+                    first_done = True
+                    res.probe("decoration_survived_the_crash_point")
+                except SimFault:
+                    res.probe("decoration_interrupted")
+                    if model._compute_grads is not spy_cg:
+                        # interrupted after the gradient wrapper was installed: that decoration is in effect, and decorating
+                        # again stacks a second one (as two complete calls would)
+                        stacked_by_crash = True
+                        res.probe("decoration_interrupted_after_it_took_effect")
+                except Exception as e:
+                    if is_harness_frame(e):
+                        raise
+                    accepted, exc, first_done = False, e, True
         with quiet():
             try:
-                out = add_mlcl_constraint(model, ml_arg, cl_arg, case["factor"])
+                if not first_done:
+                    out = add_mlcl_constraint(model, ml_arg, cl_arg, case["factor"])
             except Exception as e:
                 if is_harness_frame(e):
                     raise
@@ -276,6 +303,8 @@ def execute(record):
                 res.probe("estimator_used_after_rejected_decoration")
             # (i, j, signed factor): + pushes apart (cannot-link), - pulls together (must-link)
             terms = [(i, j, factor) for (i, j) in pairs_cl] + [(i, j, -factor) for (i, j) in pairs_ml]
+            if stacked_by_crash and accepted:
+                terms = terms + terms
             second = case.get("second")
             if second:
                 ok2, _ = mlcl_accepts([tuple(p) for p in second["must_link"]], [tuple(p) for p in second["cannot_link"]])
